@@ -79,20 +79,26 @@ def readNewBytes (n : Int) : M Bytes := fun r =>
   else if r.bs.length < n.toNat then .error (.io, ⟨[], r.remain - r.bs.length⟩)
   else .ok (r.bs.take n.toNat, ⟨r.bs.drop n.toNat, r.remain - n.toNat⟩)
 
+/-- batch.go readMessageBytes (the key / value closures of ReadMessage) and message_reader.go readNewBytes (header
+values): a negative length is a null field, length 0 an empty one (fix for C02-D30: both used to come back nil) -/
+def readMessageBytes (n : Int) : M (Option Bytes) := do
+  let b ← readNewBytes n
+  pure (if n < 0 then none else some b)
+
 /-- message_reader.go runFunc with batch.go's key / value closures -/
-def runFunc : M Bytes := do
+def runFunc : M (Option Bytes) := do
   let length ← readVarInt
-  readNewBytes length
+  readMessageBytes length
 
 /-- message_reader.go readMessageHeader -/
-def readMessageHeader : M (Bytes × Bytes) := do
+def readMessageHeader : M (Bytes × Option Bytes) := do
   let keyLen ← readVarInt
   let k ← readNewBytes keyLen
   let valLen ← readVarInt
-  let v ← readNewBytes valLen
+  let v ← readMessageBytes valLen
   pure (k, v)
 
-def readMessageHeaders : Nat → M (List (Bytes × Bytes))
+def readMessageHeaders : Nat → M (List (Bytes × Option Bytes))
   | 0 => pure []
   | n + 1 => do
     let h ← readMessageHeader
@@ -103,9 +109,9 @@ def readMessageHeaders : Nat → M (List (Bytes × Bytes))
 structure RecView where
   offDelta : Int
   tsDelta : Int
-  key : Bytes
-  value : Bytes
-  headers : List (Bytes × Bytes)
+  key : Option Bytes
+  value : Option Bytes
+  headers : List (Bytes × Option Bytes)
   consumed : Int        -- `int(length) + lengthOfLength`, what `r.lengthRemain` is decreased by
   deriving DecidableEq, Repr
 
@@ -117,7 +123,7 @@ def recTail (length lengthOfLength : Int) : M RecView := do
   let key ← runFunc
   let val ← runFunc
   let headerCount ← readVarInt
-  let headers ← (if headerCount > 0 then readMessageHeaders headerCount.toNat else pure [] : M (List (Bytes × Bytes)))
+  let headers ← (if headerCount > 0 then readMessageHeaders headerCount.toNat else pure [] : M (List (Bytes × Option Bytes)))
   pure { offDelta := offsetDelta, tsDelta := timestampDelta, key := key, value := val, headers := headers,
          consumed := length + lengthOfLength }
 
@@ -131,9 +137,9 @@ def readRecordV2 : M RecView := fun r0 =>
 `discardBytes` twice below `min`) -/
 
 /-- read.go readBytesWith with batch.go's key / value closure (readNewBytes): a 4-byte length, −1 = null -/
-def readBytes32 : M Bytes := do
+def readBytes32 : M (Option Bytes) := do
   let n ← readInt32
-  (fun r => if n > (r.remain : Int) then .error (.short, r) else readNewBytes n r : M Bytes)
+  (fun r => if n > (r.remain : Int) then .error (.short, r) else readMessageBytes n r : M (Option Bytes))
 
 /-- discard.go discardBytes -/
 def discardBytes32 : M Unit := do
@@ -142,7 +148,7 @@ def discardBytes32 : M Unit := do
             else if n < 0 then .ok ((), r) else discardN n.toNat r : M Unit)
 
 /-- readMessageV1, a message at or above `min`: key, value -/
-def readBodyV1 : M (Bytes × Bytes) := do
+def readBodyV1 : M (Option Bytes × Option Bytes) := do
   let k ← readBytes32
   let v ← readBytes32
   pure (k, v)
